@@ -370,7 +370,9 @@ func c09escape(p *Program, r *Report, rule string) {
 						case isTimerC(st.Chan):
 							ok, why = true, "timer case"
 						case isDoneCall(st.Chan):
-							ok, why = true, "ctx.Done() case"
+							if why == "" {
+								why = "only a ctx.Done() case: the caller's context may never end, so closing the connection does not release this wait"
+							}
 						}
 					}
 					// mu.lock: m.c.closed via two field hops
@@ -383,7 +385,7 @@ func c09escape(p *Program, r *Report, rule string) {
 							}
 						}
 					}
-					r.Check(rule, fname, "blocking select", p.InstrPos(x), ok, "every blocking select has an escape case: Conn.closed, a timer, or a context's Done", why)
+					r.Check(rule, fname, "blocking select", p.InstrPos(x), ok, "every blocking select has an escape case that fires when the connection is closed or after a bounded time: a case on Conn.closed or on a timer (a ctx.Done() case alone is not enough: every call blocked on the connection must return once it is closed)", why)
 				case *ssa.Send:
 					n++
 					_, fr := frozen[fname+"|send"]
@@ -543,6 +545,7 @@ func runC09(p *Program, r *Report) {
 	c09ctx(p, r, "C09.ctx")
 	c09escape(p, r, "C09.escape")
 	c09cancel(p, r, "C09.cancel")
+	c10loop(p, r, "C09.watcher")
 	c20selfjoin(p, r, "C09.selfjoin")
 	c05leak(p, r, getLockEnv(p), "C09.release")
 	c05noreacquire(p, r, getLockEnv(p), "C09.noreacquire")
